@@ -106,6 +106,27 @@ def install_interpreter_probes():
     Tracking._add_record_state = add
 
 
+class _VirtualTime:
+    """stands in for the `time` module inside the tag modules: every time stamp a tag takes is the engine's virtual time"""
+    def __getattr__(self, name):
+        import time as _t
+        return getattr(_t, name)
+
+    @staticmethod
+    def time():
+        run = _installed.get("run")
+        return run.t if run is not None else EPOCH
+
+
+def install_virtual_time():
+    import openpectus.lang.exec.tags as tags
+    import openpectus.lang.exec.tags_impl as tags_impl
+    import openpectus.engine.engine_message_builder as emb
+    for m in (tags, tags_impl, emb):
+        if not isinstance(getattr(m, "time", None), _VirtualTime):
+            m.time = _VirtualTime()
+
+
 def build_uod(log, hw):
     """The instrumented unit operation: every init/exec/finalize call is logged with (name, instance id, iteration)."""
     from openpectus.engine.hardware import RegisterDirection
@@ -221,13 +242,17 @@ def milli(x) -> int:
 
 
 class EngineRun:
-    def __init__(self, method_lines: list[str] | None = None, interval: float = 0.1):
+    def __init__(self, method_lines: list[str] | None = None, interval: float = 0.1, tagtrace: bool = False):
         import openpectus.protocol.models as Mdl
         from openpectus.engine.engine import Engine, EngineTiming
         from openpectus.lang.exec.clock import WallClock
         from openpectus.lang.exec.timer import NullTimer
         install_node_recorder()
         install_interpreter_probes()
+        install_virtual_time()
+        self.tagtrace = tagtrace
+        self._tagvals: dict[str, str] = {}
+        self.t = EPOCH
         _installed["run"] = self
         self.Mdl = Mdl
         self.events: list[dict] = []
@@ -540,6 +565,28 @@ class EngineRun:
             self.raised = exc
         self._drain_writes(phase="tick")
         self._ev("tickEnd", exc=exc, **self.snapshot())
+        if self.tagtrace:
+            self._log_tag_changes()
+
+    def _log_tag_changes(self):
+        ch = []
+        for tag in self.engine._iter_all_tags():
+            v = num(tag.get_value())
+            if self._tagvals.get(tag.name) != v:
+                self._tagvals[tag.name] = v
+                ch.append({"name": str(tag.name), "val": v})
+        self._ev("tags", ms=milli(self.t) - milli(EPOCH), ch=ch)
+
+    def report(self, snapshot=False):
+        """what EngineReporter does: build a tags-updated message from the engine's update queue"""
+        try:
+            msg = self.mb.create_tag_updates_snapshot_msg() if snapshot else self.mb.create_tag_updates_msg(None)
+            tags = [] if msg is None else [{"name": str(t.name), "val": num(t.value), "tt": int(round((t.tick_time - EPOCH) * 1000))}
+                                           for t in msg.tags]
+            self._ev("report", snapshot=bool(snapshot), ms=milli(self.t) - milli(EPOCH), n=len(list(self.engine._iter_all_tags())),
+                     tags=tags, exc="none")
+        except Exception as ex:
+            self._ev("report", snapshot=bool(snapshot), ms=0, n=0, tags=[], exc=type(ex).__name__)
 
     def snapshot(self) -> dict:
         from openpectus.lang.exec.tags import SystemTagName as S
@@ -594,6 +641,8 @@ class EngineRun:
             for r in st.get("req", []):
                 self.apply(r)
             self.tick(st.get("dt", 0.1), st.get("in"))
+            if st.get("report"):
+                self.report(snapshot=st["report"] == "snapshot")
         return self.events
 
     def close(self):
